@@ -291,3 +291,18 @@ Theorem C12_extra_bias_read_refuted :
   run loc_eqb [opes; harm] s0 (LBiasState 0) = 3%Z /\ run loc_eqb [harm; opes] s0 (LBiasState 0) = 21%Z.
 Proof. exact extra_bias_order_dependent. Qed.
 Print Assumptions C12_extra_bias_read_refuted.
+
+(* (xvii) Script callbacks.  The engine has one interpreter with one result slot.  In the serial collection phase (main thread, after
+   the parallel component loop) every scripted variable gets the value of ITS function; FULL STATEMENT for callbacks entered
+   concurrently (false): the same for every interleaving of the two halves of the callbacks.  The check records thread and
+   "inside a parallel loop" at every callback entry of the engine simulator: an entry off the main thread or inside a loop is a
+   violation (callback:off-main-thread). *)
+Theorem C12_serial_callbacks_correct : forall (vs : list nat) (slot : Z) (f : nat -> Z),
+  slot_exec (serial_callbacks vs) slot f = map (fun v => (v, f v)) vs.
+Proof. exact serial_callbacks_correct. Qed.
+Print Assumptions C12_serial_callbacks_correct.
+
+Theorem C12_concurrent_callbacks_refuted : exists (ops : list (nat * bool)) (f : nat -> Z),
+  Permutation ops (serial_callbacks [0; 1]) /\ slot_exec ops 0%Z f <> map (fun v => (v, f v)) [0; 1].
+Proof. exact concurrent_callbacks_refuted. Qed.
+Print Assumptions C12_concurrent_callbacks_refuted.
